@@ -252,8 +252,8 @@ func (r *Receiver) SegmentHandlerFunc(w http.ResponseWriter, req *http.Request) 
 						}
 					}
 				}
-				if maxNrBufSegs > 0 && rsd.seqNr >= maxNrBufSegs {
-					removeOldSegments(log, stream.trDir, stream.ext, rsd.seqNr-maxNrBufSegs)
+				if maxNrBufSegs > 0 {
+					removeOldSegments(log, stream.trDir, stream.ext, rsd.seqNr, maxNrBufSegs)
 				}
 			}
 			//TODO. Add test cases for multiple-chunks rewrite
@@ -389,23 +389,39 @@ func (r *Receiver) SegmentHandlerFunc(w http.ResponseWriter, req *http.Request) 
 	trD.nrSegsReceived++
 }
 
-// removeOldSegments removes all media segments of a track with sequence number <= lastNrToRemove.
-// Not only lastNrToRemove itself, since segments received before the window was known,
+// removeOldSegments removes the media segments of a track that are maxNrBufSegs or more behind the newest one,
+// which is seqNr or a stored segment with a higher number (seqNr itself may be a late retransmission far behind).
+// All such segments are removed, not only one, since segments received before the window was known,
 // or before a gap in the sequence numbers, would otherwise stay forever.
-func removeOldSegments(log *slog.Logger, trDir, ext string, lastNrToRemove uint32) {
+func removeOldSegments(log *slog.Logger, trDir, ext string, seqNr, maxNrBufSegs uint32) {
 	entries, err := os.ReadDir(trDir)
 	if err != nil {
 		log.Warn("Failed to list track directory", "path", trDir, "err", err)
 		return
 	}
+	newest := seqNr
+	nrs := make(map[string]uint32, len(entries))
 	for _, e := range entries {
 		name := e.Name()
 		if e.IsDir() || filepath.Ext(name) != ext {
 			continue
 		}
 		nr, err := strconv.ParseUint(strings.TrimSuffix(name, ext), 10, 32)
-		if err != nil || uint32(nr) > lastNrToRemove {
-			continue // init segments and newer media segments
+		if err != nil {
+			continue // init segments
+		}
+		nrs[name] = uint32(nr)
+		if uint32(nr) > newest {
+			newest = uint32(nr)
+		}
+	}
+	if newest < maxNrBufSegs {
+		return
+	}
+	lastNrToRemove := newest - maxNrBufSegs
+	for name, nr := range nrs {
+		if nr > lastNrToRemove {
+			continue
 		}
 		segPath := filepath.Join(trDir, name)
 		log.Debug("Deleting old segment", "path", segPath)
